@@ -7,7 +7,7 @@ from vf.harness import common as H
 
 PROPERTY = "C13"
 ALLOW_NO_CHECKS = False
-BOUNDS = {"all": "(a) alias tables over 3 (quick) / 4 (thorough) names whose targets (two real types, the 4 names, one unknown name) are engine decisions: "
+BOUNDS = {"all": "(a) alias tables over 3 (quick) / 4 (thorough) names whose targets (three real types, two of equal size, the 4 names, one unknown name) are engine decisions: "
                  "every table incl. chains, cycles and dangling names; re-declaration with same/other target; (b) a corpus of 9 definition "
                  "texts (structs, unions, anonymous members, typedef struct with several names and pointer names, enums, flags, bit-fields, "
                  "#define, typedef chains, self reference): every single insertion of a trivia atom (space, tab, newline, CRLF, block "
@@ -206,7 +206,7 @@ def make_alias(case):
         from dissect.cstruct.exceptions import ResolveError
         cs = cstruct()
         names = ["n0", "n1", "n2", "n3"][:case["names"]]
-        real = [cs.uint8, cs.int32]
+        real = [cs.uint8, cs.int8, cs.int32]
         options = real + names + ["zz_unknown"]
         table = {}
         for i, nm in enumerate(names):
@@ -280,7 +280,7 @@ def cases(tier, seed):
     import random
     cfgs = [{"endian": "<", "align": False, "compiled": True}, {"endian": ">", "align": True, "compiled": False}]
     nn = 3 if tier == "quick" else 4
-    for first in range(nn + 3):
+    for first in range(nn + 4):
         yield {"label": f"alias tables names={nn} first-target={first}", "make": "make_alias", "names": nn, "first": first}
     rng = random.Random(seed)
     for cname, units in CORPUS.items():
